@@ -64,6 +64,9 @@ def ev_before(trace, first, then):
 
 REGISTRY: dict = {}
 PROTOCOLS: dict = {}
+from .text import CharProtocol as _CharProtocol  # noqa: E402
+
+PROTOCOLS["Char"] = _CharProtocol()  # str predicates of one abstract character (chr(k).isdigit() ...), exact below 256
 
 Loop = LoopSpec
 
